@@ -22,6 +22,8 @@ import (
 //	R-atomic-replace  registration stores one freshly allocated record (or a func value) with a
 //	                  single map store; records already in a registry are never mutated in place
 //	R-order           resources/list is produced by walking the order slice, never by ranging the map
+//   R-handler-unlocked  no registry lock is held while user code runs
+//   R-one-registry      every caller of an options constructor with a fallback registry supplies its own registry
 func init() { Registry["C12"] = checkC12 }
 
 type registryInfo struct {
